@@ -20,12 +20,14 @@ FRAGMENT = {
                'concurrently.  Raw images carry Teletext and VPS lines only (io-sim.c\'s caption signal generator has an undefined '
                'double->unsigned conversion, outside this property)',
  'design_ref': 'DESIGN.md section 6 (C20)',
- 'rule': 'one evaluation = one simulated run: 20-400 caption frames with 5-400 fetches and 0-5 channel switch requests, or 3-30 raw frames with '
+ 'rule': 'one evaluation = one simulated run: 20-400 caption frames (in half of the runs together with Teletext pages on the same decoder: rolling headers in two magazines, '
+         'headers hit by parity errors, headers of another network, dropped frames - the inputs that make the decoding thread take chswcd_mutex and reset the caption decoder itself) '
+         'with 5-400 fetches and 0-5 channel switch requests, or 3-30 raw frames with '
          '6-80 service operations; non-trivial = at least 3 foreign operations positioned between acquisitions of the primary task and more than 20 '
          'task switches; distinct = distinct event-log hash',
- 'fault_kinds': [],
+ 'fault_kinds': ['fault_frames_dropped', 'fault_foreign_network_header', 'fault_header_parity_error'],
  'state_note': 'hash of the first 24 scheduling decisions of each run',
- 'components': {'real': ['src/caption.c', 'src/vbi.c', 'src/decoder.c', 'src/raw_decoder.c', 'src/bit_slicer.c', 'src/io-sim.c (signal generator for the images)'],
+ 'components': {'real': ['src/caption.c', 'src/vbi.c', 'src/packet.c', 'src/cache.c', 'src/decoder.c', 'src/raw_decoder.c', 'src/bit_slicer.c', 'src/io-sim.c (signal generator for the images)'],
                 'stub': ['simulated pthreads + scheduler (simk/kernel.cc)', 'race detector / memory access preemption (simk/race.cc)', 'caption byte stream generator']},
  'assumptions': ['a data race is two accesses to the same 8 byte granule, at least one a write, not ordered by mutex release->acquire edges',
                  'the order of mutex acquisitions decides the linearisation; the sequential replay runs foreign operations right before the primary task\'s n-th acquisition']}
